@@ -149,6 +149,17 @@ def readBvVal (tok : String) : Option BvVal :=
   | ['o'] => some .other
   | _ => none
 
+/-- `N` (None), an int, or `a<int>` (a bool / float of that numeric value) -/
+def readWidth (tok : String) : Option PyWidth :=
+  if tok = "N" then some .none else
+  match tok.toList with
+  | 'a' :: r => (String.ofList r).toInt?.map .alt
+  | _ => tok.toInt?.map .int
+
+/-- an int, or `o` for a Python value that is not an int -/
+def readPyInt (tok : String) : Option (Option Int) :=
+  if tok = "o" then some none else tok.toInt?.map some
+
 def readOptNat (tok : String) : Option (Option Nat) :=
   if tok = "N" then some none else tok.toNat?.map some
 
@@ -262,18 +273,17 @@ def St.pairs (st : St) (e : Nat) (tok : String) : Option (List (Nid × Nid)) :=
     | _ => none
   | _ => none
 
-def binPlain : String → Option (Nat × Bool)
-  | "Implies" => some (NT.IMPLIES, false) | "Iff" => some (NT.IFF, false)
-  | "Minus" => some (NT.MINUS, false) | "Equals" => some (NT.EQUALS, false)
-  | "LE" => some (NT.LE, false) | "LT" => some (NT.LT, false)
-  | "GE" => some (NT.LE, true) | "GT" => some (NT.LT, true)
-  | "BVULT" => some (NT.BV_ULT, false) | "BVULE" => some (NT.BV_ULE, false)
-  | "BVUGT" => some (NT.BV_ULT, true) | "BVUGE" => some (NT.BV_ULE, true)
-  | "BVSLT" => some (NT.BV_SLT, false) | "BVSLE" => some (NT.BV_SLE, false)
-  | "BVSGT" => some (NT.BV_SLT, true) | "BVSGE" => some (NT.BV_SLE, true)
-  | "StrContains" => some (NT.STR_CONTAINS, false) | "StrPrefixOf" => some (NT.STR_PREFIXOF, false)
-  | "StrSuffixOf" => some (NT.STR_SUFFIXOF, false) | "StrCharAt" => some (NT.STR_CHARAT, false)
-  | "Select" => some (NT.ARRAY_SELECT, false)
+def binPlain : String → Option (Nid → Nid → Prog Nid)
+  | "Implies" => some fun a b => mkPlain NT.IMPLIES [a, b] | "Iff" => some mkIff
+  | "Minus" => some fun a b => mkPlain NT.MINUS [a, b] | "Equals" => some mkEquals
+  | "LE" => some mkLE | "LT" => some mkLT | "GE" => some mkGE | "GT" => some mkGT
+  | "BVULT" => some mkBVULT | "BVULE" => some mkBVULE | "BVUGT" => some mkBVUGT | "BVUGE" => some mkBVUGE
+  | "BVSLT" => some mkBVSLT | "BVSLE" => some mkBVSLE | "BVSGT" => some mkBVSGT | "BVSGE" => some mkBVSGE
+  | "StrContains" => some fun a b => mkPlain NT.STR_CONTAINS [a, b]
+  | "StrPrefixOf" => some fun a b => mkPlain NT.STR_PREFIXOF [a, b]
+  | "StrSuffixOf" => some fun a b => mkPlain NT.STR_SUFFIXOF [a, b]
+  | "StrCharAt" => some fun a b => mkPlain NT.STR_CHARAT [a, b]
+  | "Select" => some fun a b => mkPlain NT.ARRAY_SELECT [a, b]
   | _ => none
 
 def unPlain : String → Option Nat
@@ -299,6 +309,7 @@ def bvNary : String → Option Nat
 def readBvArg (st : St) (e : Nat) (tok : String) : Option BvArg :=
   match tok.toList with
   | 'i' :: r => (String.ofList r).toInt?.map .int
+  | ['o'] => some .other
   | _ => (st.ref e tok).map .node
 
 /-- the program of one op (environment `e`), or `none` when ill-formed -/
@@ -341,21 +352,26 @@ def opProg (st : St) (e : Nat) (toks : List String) : Option (Prog Nid) :=
      | _ => none)
   | ["TRUE"] => some (pure trueId)
   | ["FALSE"] => some (pure falseId)
-  | ["BV", v, w] => do some (mkBV (← readBvVal v) (← readOptNat w))
-  | ["SBV", v, w] => do some (mkSBV (← readBvVal v) (← readOptNat w))
-  | ["BVOne", w] => do some (mkBV (.int 1) (some (← w.toNat?)))
-  | ["BVZero", w] => do some (mkBV (.int 0) (some (← w.toNat?)))
+  | ["BV", v, w] => do some (mkBVpy (← readBvVal v) (← readWidth w))
+  | ["SBV", v, w] => do some (mkSBVpy (← readBvVal v) (← readWidth w))
+  | ["BVOne", w] => do some (mkBVpy (.int 1) (← readWidth w))
+  | ["BVZero", w] => do some (mkBVpy (.int 0) (← readWidth w))
   | ["BVNot", a] => do some (mkBVUn NT.BV_NOT (← ref a))
   | ["BVNeg", a] => do some (mkBVUn NT.BV_NEG (← ref a))
   | ["BVConcat", l] => do some (mkBVConcat (← refs l))
-  | ["BVExtract", a, s, en] => do some (mkBVExtract (← ref a) (← s.toInt?) (← readOptInt en))
+  | ["BVExtract", a, s, en] =>
+    if s = "o" || en = "o" then do
+      -- `assert is_python_integer(start) and is_python_integer(end)`
+      let _ ← ref a
+      some (failP .assertion)
+    else do some (mkBVExtract (← ref a) (← s.toInt?) (← readOptInt en))
   | ["BVLShl", a, b] => do some (mkBVShift NT.BV_LSHL (← ref a) (← readBvArg st e b))
   | ["BVLShr", a, b] => do some (mkBVShift NT.BV_LSHR (← ref a) (← readBvArg st e b))
   | ["BVAShr", a, b] => do some (mkBVShift NT.BV_ASHR (← ref a) (← readBvArg st e b))
-  | ["BVRol", a, n] => do some (mkBVRot NT.BV_ROL (← ref a) (← n.toInt?))
-  | ["BVRor", a, n] => do some (mkBVRot NT.BV_ROR (← ref a) (← n.toInt?))
-  | ["BVZExt", a, n] => do some (mkBVExt NT.BV_ZEXT (← ref a) (← n.toInt?))
-  | ["BVSExt", a, n] => do some (mkBVExt NT.BV_SEXT (← ref a) (← n.toInt?))
+  | ["BVRol", a, n] => do some (mkBVRotPy NT.BV_ROL (← ref a) (← readPyInt n))
+  | ["BVRor", a, n] => do some (mkBVRotPy NT.BV_ROR (← ref a) (← readPyInt n))
+  | ["BVZExt", a, n] => do some (mkBVExtPy NT.BV_ZEXT (← ref a) (← readPyInt n))
+  | ["BVSExt", a, n] => do some (mkBVExtPy NT.BV_SEXT (← ref a) (← readPyInt n))
   | ["BVComp", a, b] => do some (mkBVComp (← ref a) (← ref b))
   | ["BVNand", a, b] => do some (mkBVNotOf NT.BV_AND (← ref a) (← ref b))
   | ["BVNor", a, b] => do some (mkBVNotOf NT.BV_OR (← ref a) (← ref b))
@@ -363,15 +379,15 @@ def opProg (st : St) (e : Nat) (toks : List String) : Option (Prog Nid) :=
   | ["BVSMod", a, b] => do some (mkBVSMod (← ref a) (← ref b))
   | ["BVRepeat", a, n] => do some (mkBVRepeat (← ref a) (← n.toInt?))
   | ["Array", t, d, kvs] => do some (mkArray addr (← readTy t) (← ref d) (← st.pairs e kvs))
-  | ["Algebraic", h] => do some (create ⟨NT.ALGEBRAIC_CONSTANT, [], .alg (← unhexH h)⟩)
+  | ["Algebraic", h] => do some (mkAlgebraic (← unhexH h))
   | ["Type", t] => do some (.prim (.internTy (← readTy t)) .pure)
   | [name, a] => do some (mkPlain (← unPlain name) [← ref a])
   | [name, a, b] =>
     (match binPlain name with
-     | some (nt, swap) => do
+     | some f => do
        let x ← ref a
        let y ← ref b
-       some (mkPlain nt (if swap then [y, x] else [x, y]))
+       some (f x y)
      | none =>
        match bvBin name with
        | some nt => do some (mkBVBin nt (← ref a) (← ref b))
